@@ -11,7 +11,9 @@ use std::sync::atomic::{AtomicBool, Ordering};
 use std::sync::Mutex;
 use std::time::Instant;
 
-pub const VERIF_DIR: &str = "/verif";
+pub fn verif_dir() -> String {
+    std::env::var("VERIF_DIR").unwrap_or_else(|_| "/verif".to_string())
+}
 
 #[derive(Clone, Copy, PartialEq, Eq, Debug)]
 pub enum Tier {
@@ -211,7 +213,7 @@ impl SplitMix {
 }
 
 pub fn load_known_findings() -> Vec<KnownFinding> {
-    let path = format!("{VERIF_DIR}/known_findings.json");
+    let path = format!("{}/known_findings.json", verif_dir());
     let Ok(text) = std::fs::read_to_string(&path) else {
         return vec![];
     };
@@ -301,7 +303,7 @@ impl Ctx {
     }
 
     fn write_replay(&self, f: &Failure) -> String {
-        let dir = format!("{VERIF_DIR}/replays/{}", self.id);
+        let dir = format!("{}/replays/{}", verif_dir(), self.id);
         let _ = std::fs::create_dir_all(&dir);
         let body = json!({"property": self.id, "signature": f.signature, "message": f.msg, "case": f.case});
         let text = serde_json::to_string_pretty(&body).unwrap();
@@ -367,7 +369,7 @@ impl Ctx {
             "violations": viol.len(),
         });
         if !self.replay_mode {
-            let dir = format!("{VERIF_DIR}/evidence");
+            let dir = format!("{}/evidence", verif_dir());
             let _ = std::fs::create_dir_all(&dir);
             let path = format!("{dir}/{}.json", self.id);
             std::fs::write(&path, serde_json::to_string_pretty(&ev).unwrap() + "\n").expect("write evidence");
